@@ -70,7 +70,16 @@ def run(world: World, main: Callable[[VLoop], Coroutine[Any, Any, Any]], *, debu
     return status, value, loop
 
 
+_EXECUTIONS = 0
+
+
 def _teardown(loop: VLoop) -> None:
+    # abandoned loop/task/transport cycles are promoted to the oldest generation by the per-execution gc.collect(1):
+    # run a full collection now and then or a long-lived worker grows without bound
+    global _EXECUTIONS
+    _EXECUTIONS += 1
+    if _EXECUTIONS % 64 == 0:
+        gc.collect()
     # drop whatever is left without running it (pending tasks of an abandoned execution)
     try:
         for t in asyncio.all_tasks(loop):
